@@ -331,7 +331,7 @@ func exploreTxn(c *Ctx, sc txnScen, budgets []int, shards, shardI int, oracles .
 			return nil
 		}
 	}
-	ExploreSched(c, wrapped, SchedOpts{Delay: true, Budgets: budgets, MaxEnv: 0, MaxSteps: 300000, Shards: shards, ShardI: shardI, ShardDepth: 1,
+	ExploreSched(c, wrapped, SchedOpts{Delay: true, Budgets: budgets, MaxEnv: 1, EnvKinds: dbEnvKinds, MaxSteps: 300000, Shards: shards, ShardI: shardI, ShardDepth: 1,
 		RaceCheck: true,
 		Outcome:   func() string { return obs.outcomeKey() },
 		NT: func() string {
